@@ -23,6 +23,11 @@ UNIVERSES = {
            'subst': {}},
     'U4b': {'nt': 4, 'ins': [[1], [1], [1, 2], [3]], 'rel': [True, False, True, True], 'blk': [[1, 4], [2]],
             'subst': {'Rel <- Rel4': 'Rel <- Rel4b', 'Blk <- Blk4': 'Blk <- Blk4b'}},
+    # reorganisation universes: block 1 is orphaned and replaced by block 2 (which confirms tx 1 again / the conflicting tx 2)
+    'R3': {'nt': 3, 'ins': [[1], [1], [2]], 'rel': [True, True, False], 'blk': [[1], [1, 3]],
+           'subst': {'NT = 4': 'NT = 3', 'Ins <- Ins4': 'Ins <- Ins3', 'Rel <- Rel4': 'Rel <- Rel3', 'Blk <- Blk4': 'Blk <- BlkR', 'MaxReorg = 0': 'MaxReorg = 1'}},
+    'R3b': {'nt': 3, 'ins': [[1], [1], [2]], 'rel': [True, True, False], 'blk': [[1, 3], [2]],
+            'subst': {'NT = 4': 'NT = 3', 'Ins <- Ins4': 'Ins <- Ins3', 'Rel <- Rel4': 'Rel <- Rel3', 'Blk <- Blk4': 'Blk <- BlkR2', 'MaxReorg = 0': 'MaxReorg = 1'}},
     'U3': {'nt': 3, 'ins': [[1], [1], [2]], 'rel': [True, True, False], 'blk': [[2, 3]],
            'subst': {'NT = 4': 'NT = 3', 'Ins <- Ins4': 'Ins <- Ins3', 'Rel <- Rel4': 'Rel <- Rel3', 'Blk <- Blk4': 'Blk <- Blk3'}},
 }
@@ -114,7 +119,7 @@ def run(chk, scripts, formulas):
             'lines': sum(len(all_lines[u]) for u in all_lines), 'bad_traces': bad_traces, 'drift': drift,
             'rejected': len(rej_all), 'skips': skips,
             'false_instances': len([1 for _, f, _ in bad_all if f in formulas]),
-            'notifications': sum(len(ln['st']['dl']) for u in all_lines for ln in all_lines[u] if ln.get('fin'))}
+            'notifications': sum(len(ln['st']['dl']) for u in all_lines for ln in all_lines[u] if ln.get('fin')), 'all_lines': all_lines}
 
 
 def standard(prop, formulas, text_rule, nontrivial, argv, invariants=None, extra_models=None):
@@ -127,6 +132,16 @@ def standard(prop, formulas, text_rule, nontrivial, argv, invariants=None, extra
         sub_inv = 'INVARIANTS ' + ' '.join(invariants)
     models = [('exhaustive', model(chk, 'TxPipeline invariants (3 txs, double spend, 1 block, restart, checker)', sub,
                                    timeout=2400 if thorough else 900))]
+    if not os.environ.get('VERIF_SKIP_MODEL'):
+        # reorganisation: block 1 orphaned, replaced by a block that confirms tx 1 again (BlkR) or the conflicting tx 2 (BlkR2)
+        rsub = {'MaxReorg = 0': 'MaxReorg = 1', 'MaxRestart = 1': 'MaxRestart = 0', 'MaxCheck = 2': 'MaxCheck = 1', 'MaxClock = 3': 'MaxClock = 2',
+                'INVARIANTS AtMostOnceNew': 'INVARIANTS ProofValid AtMostOnceNew'}
+        if not thorough:
+            rsub['MaxArr = 4'] = 'MaxArr = 3'
+        for nm, blk in (('reorg-same-tx', 'BlkR'), ('reorg-conflicting-tx', 'BlkR2')):
+            x = dict(rsub)
+            x['Blk <- Blk3'] = 'Blk <- ' + blk
+            models.append((nm, model(chk, 'TxPipeline with a reorganisation (%s)' % blk, x, timeout=2400)))
     scripts = []
     for name, r in models:
         if r.violated and r.trace:
@@ -144,6 +159,9 @@ def standard(prop, formulas, text_rule, nontrivial, argv, invariants=None, extra
         scripts += gen(chk, 'U4b', 90 * k, 45, seed + 2)
         scripts += gen(chk, 'U3', 90 * k, 40, seed + 3)
         scripts += gen(chk, 'U4', 60 * k, 45, seed + 4, race=True)
+        scripts += gen(chk, 'R3', 50 * k, 45, seed + 5)
+        scripts += gen(chk, 'R3b', 50 * k, 45, seed + 6)
+        scripts += gen(chk, 'R3', 30 * k, 45, seed + 7, race=True)
     res = run(chk, scripts, formulas)
     for name, r in models:
         if r.violated and ('model-cex-%s' % name) not in res['bad_traces']:
@@ -161,10 +179,10 @@ def standard(prop, formulas, text_rule, nontrivial, argv, invariants=None, extra
         'models': [{'name': n, 'states': r.distinct, 'result': 'ok' if r.ok else r.violated} for n, r in models],
         'checker_cmd': 'tlc MC_TxPipeline / Props_TxPipeline / Trace_TxPipeline', 'exhaustive': False,
     }, assumptions=[
-        'the node is in sync while transactions are processed; the relevance filter is a single subscribed 20-byte push (the filter itself is C08)',
+        'the node is in sync while transactions are processed, except between a reorganisation and its replacement block; the relevance filter is a single subscribed 20-byte push (the filter itself is C08)',
         'consumer, block and checker steps are atomic except for the consumer parked after the mempool add (race scripts)',
         'time is advanced by shifting stored timestamps (1 tick = 1 s, safe delay 1.5 s)',
-        'transaction universes of 3-4 transactions over 2-3 outpoints, 1-2 blocks',
+        'transaction universes of 3-4 transactions over 2-3 outpoints, 1-2 blocks; reorganisations orphan the top block once and replace it',
     ])
 
 
